@@ -590,6 +590,144 @@ def r14_6(rep: Report) -> None:
         rep.ok(rid, construct, 'window end converted as one quantity', 'form not recognised (not decided)')
 
 
+def r14_9(rep: Report) -> None:
+    """every `return []` before the scheduling loop is taken only when no event of the schedule can
+    lie in the segment window [seg_start, seg_end): not in-band, no positive interval, the first event
+    at or after the window end, or (bounded schedule) the last event `start + (count-1)*interval`
+    before the window start.  The path condition of each early exit (locals resolved to polynomials
+    in start / count / interval) must entail one of these; entailment is `goal = premise - D` with D
+    a non-negative combination of 1 and the interval (known >= 1 after the interval guard)."""
+    from ..core import dfs_order, poly, poly_cmp, poly_sub
+    from ..flow import Disjunctive, Flow, each_exit
+    from ..pathcond import PathCond, dnf, show as pc_show, sym_values
+    rid = 'R14.9'
+    rel = f'{EV}/repeating_event_base.py'
+    tree = rep.repo.tree(rel)
+    cls = need(find_class(tree, 'RepeatingEventBase'), 'RepeatingEventBase')
+    fn = need(find_func(cls, 'create_emsg_boxes'), 'create_emsg_boxes')
+    construct = f'{rel}::RepeatingEventBase.create_emsg_boxes'
+    loops = [n for n in ast.walk(fn) if isinstance(n, ast.While)]
+    if not loops:
+        raise AnalysisError('create_emsg_boxes: scheduling loop not found')
+    order = dfs_order(fn)
+    first_loop = min(order[id(l)] for l in loops)
+    upd, _resolve = sym_values()
+    exits: list[tuple[ast.Return, tuple]] = []
+
+    def on_exit(kind, st, state):
+        if kind == 'return' and st is not None and isinstance(st.value, (ast.List, ast.Tuple)) \
+                and not st.value.elts and order.get(id(st), 1 << 30) < first_loop:
+            exits.append((st, state))
+    Flow(Disjunctive(PathCond(upd=upd), cap=256), on_exit=each_exit(on_exit)).run(fn, [PathCond.initial()])
+    if len(exits) < 3:
+        raise AnalysisError(f'create_emsg_boxes: only {len(exits)} early exits found')
+    S, I, C = 'self.start', 'self.interval', 'self.count'
+    # roles: the window end bounds the scheduling loop (`while t < END`), the window start is what
+    # events before the window are skipped against (`if t < START: ...; continue`)
+    emitting = [l for l in loops if any(isinstance(x, ast.Call) and (call_name(x) or '').endswith('EventMessageBox')
+                                        for x in ast.walk(l))] or loops
+    lp = emitting[0]
+    t0 = lp.test if isinstance(lp.test, ast.Compare) else (
+        lp.test.values[0] if isinstance(lp.test, ast.BoolOp) and isinstance(lp.test.values[0], ast.Compare) else None)
+    if t0 is None or not (len(t0.ops) == 1 and isinstance(t0.ops[0], ast.Lt) and isinstance(t0.left, ast.Name)
+                          and isinstance(t0.comparators[0], ast.Name)):
+        raise AnalysisError('create_emsg_boxes: the emitting loop is not `while t < end`')
+    tvar, END = t0.left.id, t0.comparators[0].id
+    START = None
+    for n in ast.walk(lp):
+        if isinstance(n, ast.If) and isinstance(n.test, ast.Compare) and len(n.test.ops) == 1 \
+                and isinstance(n.test.ops[0], ast.Lt) and norm(n.test.left) == tvar \
+                and isinstance(n.test.comparators[0], ast.Name) \
+                and any(isinstance(x, ast.Continue) for x in n.body):
+            START = n.test.comparators[0].id
+    if START is None:
+        for n in ast.walk(lp):
+            if isinstance(n, ast.Assert) and isinstance(n.test, ast.Compare) and len(n.test.ops) == 1 \
+                    and isinstance(n.test.ops[0], ast.GtE) and norm(n.test.left) == tvar \
+                    and isinstance(n.test.comparators[0], ast.Name):
+                START = n.test.comparators[0].id
+    if START is None:
+        for n in ast.walk(lp):
+            if isinstance(n, ast.BinOp) and isinstance(n.op, ast.Sub) and norm(n.left) == tvar \
+                    and isinstance(n.right, ast.Name):
+                START = n.right.id
+    if START is None:
+        raise AnalysisError('create_emsg_boxes: the skip of events before the window start was not found')
+
+    def cases_of(state) -> list[tuple[list[tuple[dict, int]], set[str]]]:
+        """the path condition split into cases (DNF); per case the integer comparisons as polynomial
+        constraints and the plain literals"""
+        vals = {}
+        for f in state[2]:
+            if f.startswith('val:'):
+                k, v = f[4:].split('=', 1)
+                try:
+                    pv = poly(ast.parse(v, mode='eval').body)
+                except SyntaxError:
+                    pv = None
+                if pv is not None:
+                    vals[k] = v
+
+        class T(ast.NodeTransformer):
+            def visit_Name(self, node):
+                if node.id in vals:
+                    return ast.parse(vals[node.id], mode='eval').body
+                return node
+        cases = []
+        for lits in dnf(state[0]):
+            out = []
+            plain: set[str] = set()
+            for truth, text in lits:
+                plain.add(('' if truth else 'not ') + text)
+                try:
+                    e = T().visit(ast.parse(text, mode='eval').body)
+                except SyntaxError:
+                    continue
+                pc_ = poly_cmp(e, truth)
+                if pc_ is not None:
+                    out.append(pc_)
+            cases.append((out, plain))
+        return cases
+
+    def entails(prem: tuple[dict, int], goal: tuple[dict, int], interval_pos: bool) -> bool:
+        d = poly_sub(prem[0], goal[0])              # goal = prem - D
+        c0 = d.pop((), 0)
+        c1 = d.pop((I,), 0)
+        if d or c0 < 0 or c1 < 0 or (c1 and not interval_pos):
+            return False
+        return c0 + c1 >= prem[1] - goal[1]
+
+    for st, state in exits:
+        key = f'early exit line-order #{exits.index((st, state)) + 1}'
+        whys: list[str | None] = []
+        for facts, plain in cases_of(state):
+            interval_pos = any(entails(f, ({(I,): -1}, -1), False) for f in facts)      # -I <= -1
+            count_pos = any(entails(f, ({(C,): -1}, -1), False) for f in facts)
+            why = None
+            if 'not self.inband' in plain:
+                why = 'not in-band'
+            elif any(entails(f, ({(I,): 1}, 0), False) for f in facts):
+                why = 'interval <= 0'
+            else:
+                for f in facts:
+                    # first event at or after the window end: seg_end - start <= 0
+                    if entails(f, ({(END,): 1, (S,): -1}, 0), interval_pos):
+                        why = 'first event at or after the window end'
+                    # last event before the window start
+                    if count_pos and entails(f, ({(S,): 1, (C, I): 1, (I,): -1, (START,): -1}, -1),
+                                             interval_pos):
+                        why = 'last event of the bounded schedule before the window start'
+            whys.append(why)
+        if whys and all(whys):
+            rep.ok(rid, construct, key, ' / '.join(sorted(set(whys))))
+        else:
+            rep.fail(rid, construct, key,
+                     f'`return []` is taken under {pc_show(state[0])[:140]}, which does not imply that no event '
+                     'of the schedule lies in [seg_start, seg_end): not one of not in-band / interval <= 0 / '
+                     'start >= seg_end / (count > 0 and start + (count-1)*interval < seg_start). An event that '
+                     'falls exactly on the boundary is never delivered', st)
+
+
 def analyse(rep: Report) -> None:
     rep.explanation = (
         'Layout extraction (E4) over the SCTE-35 codec classes, the MPEG section table and '
@@ -607,6 +745,7 @@ def analyse(rep: Report) -> None:
     rep.rule('R14.8', 'event time conversions multiply before dividing', floor=2)
     rep.rule('R14.7', 'in-band events of a bounded schedule have ids below count', floor=1)
     rep.rule('R14.6', 'segment window end: duration of the served fragment, converted as one quantity', floor=2)
+    rep.rule('R14.9', 'early exits of the in-band scheduler imply an empty segment window', floor=3)
     idx = Index(rep.repo, 'dashlive')
     rels = sorted(r for r in idx.by_rel if r.startswith(SCTE + '/')) + ['dashlive/mpeg/section_table.py']
     layout_rule(rep, idx, 'R14.1', rels, 12)
@@ -618,3 +757,4 @@ def analyse(rep: Report) -> None:
     r14_6(rep)
     r14_7(rep)
     r14_8(rep)
+    r14_9(rep)
